@@ -65,6 +65,8 @@ class RSI(Indicator):
             )
 
         if self.reading(f"{self.name}_data"):
+            if self.reading(f"{self.name}_data.loss") == 0:
+                return 100.0
             rs = self.reading(f"{self.name}_data.gain") / self.reading(f"{self.name}_data.loss")
             rsi = 100.0 - (100.0 / (1.0 + rs))
             return rsi
